@@ -343,9 +343,9 @@ class ArchipelagoDataTree:
                     dims=["processor", "readout_time", "y", "x"],
                     coords={
                         "processor": range(len(self.problem.all_target_data)),
-                        "readout_time": slice_to_range(slice_times),
-                        "y": slice_to_range(slice_rows),
-                        "x": slice_to_range(slice_cols),
+                        "readout_time": slice_to_range(slice_times, size=no_times),
+                        "y": slice_to_range(slice_rows, size=num_rows),
+                        "x": slice_to_range(slice_cols, size=num_cols),
                     },
                 )
             else:
